@@ -73,7 +73,10 @@ def add_alias(rng, base_string, frag_string):
 def logical_input(rng):
     from ..gen import ambig
     r = rng.random()
-    if r < 0.45:
+    if r < 0.08:
+        # joined only under the label-insensitive convention: every constructor has to pass the keyword on
+        c = MC.random_label_insensitive_cut_case(rng, rng.choice([3, 6, 10]))
+    elif r < 0.45:
         c = MC.random_cut_case(rng, rng.choice([3, 6, 10, 16]), ctor='string')
     elif r < 0.65:
         c = MC.random_shared_case(rng, rng.choice([6, 10]), ctor='string')
